@@ -11,7 +11,7 @@ META = {
                    'full-surface/origin 0/stride width and read absolutely with stride = surface width (R02.6); R05.6 no buffer is sized from '
                    'a possibly inverted rectangle without an emptiness test or clamp.',
     'decides': ['R05.1 push_clip_rect carries rect and mask', 'R05.2 push_clip combines masks', 'R05.3 stack discipline', 'R05.4 every draw consults the top clip',
-                'R05.5 mask layout agreement', 'R05.6 empty intersection harmless', 'R02.1 span bounded by clip_bounds', 'R03.2/R03.3 clip-aware blitter selection', 'R02.6 absolute clip indexing'],
+                'R05.5 mask layout agreement', 'R05.6 empty intersection harmless', 'R05.7 pushed rectangles stay inside the clip in force (and the surface)', 'R02.1 span bounded by clip_bounds', 'R03.2/R03.3 clip-aware blitter selection', 'R02.6 absolute clip indexing'],
     'does_not_decide': ['antialiased coverage values of clip paths (C01/C08)', 'exact pixel equality inside rectangular clips', 'order independence as pixel values'],
     'assumptions': ['euclid Box2D::intersection_unchecked/is_empty/size semantics (external, euclid 0.22.14)'],
     'trusted_base': ['euclid 0.22.14', 'sw-composite 0.7.16'],
@@ -20,4 +20,4 @@ META = {
 
 def run(ctx):
     import engine
-    engine.run_rules(ctx, [dt.r05_1, dt.r05_2, dt.r05_3, dt.r05_4, dt.r05_6, dt.r02_1, dt.r03_2, dt.r03_3, dt.r02_6])
+    engine.run_rules(ctx, [dt.r05_1, dt.r05_2, dt.r05_3, dt.r05_4, dt.r05_6, dt.r05_7, dt.r02_1, dt.r03_2, dt.r03_3, dt.r02_6])
